@@ -29,6 +29,7 @@ type Job struct {
 	NoNative  bool     // no native replay available for this job
 	Sched     string   // goroutine scheduling policy: "" fifo | lifo | fifo-lastsel
 	TimeoutMs int      // per-query solver timeout
+	BudgetSec int      // wall-clock budget of the exploration (0: none); exceeding it leaves the job undecided
 	Race      bool     // happens-before data-race detection on the interpreted goroutines (race.go)
 	RaceConfirm string // native-only entry run on a -race build to confirm race@ counterexamples (default VerifRaceStress)
 	Confirm   string   // native-only entry that amplifies schedule-dependent counterexamples (leaks, deadlocks) for confirmation
